@@ -17,6 +17,7 @@ from ..worlds.env import RunEnv
 ID = "C20"
 LEVEL = "exploration"
 CHUNK = 40
+CHUNK_DEADLINE = 600       # (long flavours: crowds, soaks, wide events; shared machines)
 BUDGET = {"quick": {"runs": 2000, "wall": 150}, "thorough": {"runs": 100000, "wall": 1200}}
 RULE = ("2-4 workers x 1-12 accepted events (ids random incl. 00.. and ff.. prefixes via mined content) "
         "x local subscribers with matching and non-matching filters; TCP delivery style per run: whole "
